@@ -15,7 +15,7 @@ LEVEL_TEXT = ('seeded exploration over all 22 object types and all their attribu
 LEVEL_NOTE = ('trusted: sim/rp66.py, sim/schema.py (attribute tables transcribed from RP66 V1 and the add_* signatures), zoneinfo for '
               'the expected UTC instant; the value-domain part is ordinary seeded sampling - the simulation adds TZ, clock/RNG, '
               'cache history and write-then-assign histories; naive datetimes stay >= 4 days away from DST transitions')
-TIERS = {'quick': {'cases': 900, 'wall': 45}, 'thorough': {'cases': 200000, 'wall': 840}}
+TIERS = {'quick': {'cases': 3000, 'wall': 45}, 'thorough': {'cases': 200000, 'wall': 840}}
 RULE = ('case = seeded specification with 3-20 metadata objects (random attribute subsets, routes, units) in a seeded time zone, '
         'optionally after a noise file and with a second write after later assignments; non-trivial = time zone other than UTC, '
         'or a noise file before, or clock/RNG defaults in use, or a value assigned after the first write; distinct = case digest')
